@@ -148,7 +148,11 @@ class FV:
 
 
 class Region:
+    ALL = []  # every region created on the current path (reset by CInterp.__init__); used by the loop-soundness check
+
     def __init__(self, name, sort="real", size=None, init=None):
+        Region.ALL.append(self)
+        self.stale = None
         self.name = name
         self.sort = sort
         self.size = size
@@ -169,6 +173,8 @@ class Region:
             if v is None:
                 raise Unsupported(f"read of uninitialised local {self.name}[{i}]")
             return v
+        if self.stale:
+            raise Unsupported(f"read of `{self.name}` after {self.stale}: the loop writes it and its contract says nothing about its contents")
         self.reads.append(term(idx))
         t = z3.simplify(z3.Select(self.mem, term(idx)))
         return SReal(t) if self.sort == "real" else SInt(t)
@@ -283,6 +289,7 @@ class CInterp:
     def __init__(self, explorer, functions, repo="/repo"):
         self.ex = explorer
         self.functions = functions  # name -> FunctionDecl json (chosen variant)
+        Region.ALL.clear()
         self.call_models = {}
         self.records = {}
         self.loop_specs = {}
@@ -818,8 +825,12 @@ class CInterp:
         # own havoc runs, so a variable the contract does not know about (e.g. introduced by a code change) is not silently kept at its
         # pre-loop value.  Pointers and containers get a poison value whose use is refused.
         self._auto_havoc(body, inc, env, where)
+        snap = [(r, r.mem) for r in Region.ALL if r.local is None]
         for a in spec.havoc(self, env, ghost) or []:
             ex.assume(a)
+        kept = [r for (r, m) in snap if r.mem is m]  # regions whose contents the contract left as they were before the loop
+        marks = [(r, len(r.writes), len(r.reads)) for r in kept]
+        shared = ex.__dict__.setdefault("loop_written", {})
         for name, c in spec.invariant(self, env, ghost):
             ex.assume(c)
         if pres:
@@ -834,6 +845,13 @@ class CInterp:
                 ex.path.tags["loop-exit-by-break"] = where
                 self.loop_counter = self._skip_loops(body, saved)
                 return
+            # SOUNDNESS: a region the body writes must have been given arbitrary (or invariant-described) contents by the contract
+            # at the loop head if the body also reads it; reads after the loop are refused on the exit path (see below)
+            for r, nw, nr in marks:
+                if len(r.writes) > nw or (r.writes and nw and r.mem is not dict((id(x), m) for x, m in snap).get(id(r))):
+                    shared.setdefault(where, set()).add(r.name)
+                    if len(r.reads) > nr:
+                        raise Unsupported(f"{where} both reads and writes `{r.name}` but its contract does not describe that region's contents at an arbitrary iteration")
             if spec.at_end:
                 spec.at_end(self, env, ghost)
             if inc.get("kind"):
@@ -847,6 +865,9 @@ class CInterp:
             if cond.get("kind"):
                 if self.truth(self.rv(self.expr(cond, env))):
                     raise core.Infeasible()
+            for r in kept:
+                if r.name in shared.get(where, ()):
+                    r.stale = where  # written by the loop, contents after it not described: later reads are refused
             if spec.exit_state:
                 spec.exit_state(self, env, ghost)
             self.loop_counter = self._skip_loops(body, saved)
